@@ -21,8 +21,8 @@
     **`mul_err_abs_float`**, **`div_err_abs_float`**: `|fl(a ∘ b) − a ∘ b| ≤ max (2⁻⁵³ · |a ∘ b|) 2⁻¹⁰⁷⁵`, gradual underflow
     included; `div_err_float` does not need `b ≠ 0` as a hypothesis: a finite quotient of finite doubles has a
     non-zero divisor (`div_finite_divisor_ne_zero`).
-  * `mul_err_pos_float` / `div_err_pos_float`: the same with the normal-range hypothesis replaced by lower bounds
-    of the operands, in the form the property files use.
+  * Lemmas/FloatErrRange.lean adds the no-overflow side (`mul_ok`, `div_ok`: finiteness *and* the relative model from
+    `2⁻¹⁰²² ≤ |exact| < 2¹⁰²³`), which is what the property files use on symbolic doubles.
 -/
 import RosuModel.Lemmas.FloatErr
 namespace Rosu.FErr
